@@ -34,6 +34,9 @@ pub struct GraphCase {
     pub stale: bool,
     pub threads: usize,
     pub sched: Sched,
+    /// run in --needed mode (same expected results as a normal build)
+    #[serde(default)]
+    pub needed: bool,
 }
 
 #[derive(Clone, Copy, PartialEq, Eq, Debug)]
@@ -61,7 +64,7 @@ pub fn prepare(case: &GraphCase) -> Prepared {
     let project = case.graph.render();
     let su = materialise(&project);
     let opts = RunOpts {
-        mode: ModeS::Build,
+        mode: if case.needed { ModeS::Needed } else { ModeS::Build },
         trailing_newline: true,
         threads: case.threads,
         recursive: case.recursive,
